@@ -21,6 +21,7 @@
 #include <assert.h>
 #include <ctype.h>
 #include <errno.h>
+#include <limits.h>
 #include <stdarg.h>
 #include <stdbool.h>
 #include <stddef.h>
@@ -782,7 +783,22 @@ static void scan(scanner_t *scnp)
 		VNAPROPERTY_GETCHAR(scnp);
 	    } while (isdigit(scnp->scn_cur));
 	    *scnp->scn_position = '\000';
-	    scnp->u.scn_int = strtol(scnp->scn_text, NULL, 10);
+	    {
+		long value;
+
+		/*
+		 * An index that doesn't fit in an int is an error here,
+		 * before anything is changed: converted blindly, 4294967296
+		 * would address element 0.
+		 */
+		errno = 0;
+		value = strtol(scnp->scn_text, NULL, 10);
+		if (errno == ERANGE || value > INT_MAX) {
+		    scnp->scn_token = T_ERROR;
+		    return;
+		}
+		scnp->u.scn_int = (int)value;
+	    }
 	    scnp->scn_token = T_INT;
 	    return;
 	}
